@@ -293,6 +293,8 @@ def build_c(unit, units, outdir, defines=()):
         if any(re.search(r'\b%s_erase_at\s*\(' % re.escape(vn), rendered[n]['body'] or '') for n in allu):
             parts.append('size_t gh_e_%s;\nVEC_SHIMS_ERASE(%s, %s)' % (vn, vn, el))
             shim_ghosts.append(('size_t', 'gh_e_' + vn))
+        if any(re.search(r'\b%s_assign\s*\(' % re.escape(vn), rendered[n]['body'] or '') for n in allu):
+            parts.append('VEC_SHIMS_ASSIGN(%s, %s)' % (vn, el))
         if any(re.search(r'\b%s_resize_fill\s*\(' % re.escape(vn), rendered[n]['body'] or '') for n in allu):
             parts.append('size_t gh_f_%s;\nVEC_SHIMS_FILL(%s, %s)' % (vn, vn, el))
             shim_ghosts.append(('size_t', 'gh_f_' + vn))
